@@ -11,6 +11,9 @@ Op lines (`T` is a name bound by a `ty` line to the *element* / key type unless 
   fmap F <list> <results>       (Fe / Fr bound to element / result type; k-th call returns results[k])
   fmaps F <string> <results>    (F bound to the result type)
   join T <list of lists>        joins string <list of strings>
+  containseq T <list> <item>    uniqueeq|seteq T <list>    unioneq|intersecteq T <this> <that>
+                                (consistency of the emitted helpers with the emitted Equal, NaN allowed;
+                                 decided on the Go side, the model answers `true`)
 
 Answers have the form `A;B`: `A` is what the property specifies (compared with `spec=`), `B` is what
 only the model fixes (nil-ness of results, the input as seen after an in-place call, which of
@@ -197,7 +200,8 @@ def specExtreme (dir : Int) (xs : List Val) (dflt : Val) : Val :=
 
 def names : List String :=
   ["sort", "keys", "min", "max", "min2", "max2", "contains", "unique", "set", "unionl", "intersectl",
-   "unionm", "intersectm", "filter", "takewhile", "all", "any", "fmap", "fmaps", "join", "joins"]
+   "unionm", "intersectm", "filter", "takewhile", "all", "any", "fmap", "fmaps", "join", "joins",
+   "containseq", "uniqueeq", "seteq", "unioneq", "intersecteq"]
 
 def ans (model spec : String) : String := s!"model={model} spec={spec}"
 
@@ -320,6 +324,22 @@ def runM (s : DState) (name : String) (args : List SExp) : M String := do
     let spec := showSortedE canonN (Spec.dedupFirst e (Spec.intersectBy e (this.getD []) (that.getD [])))
     let out := intersectMap id this that
     pure (ans (showSortedE canonN out ++ ";s," ++ showSortedE canon out) spec)
+  -- consistency of the emitted helpers with the emitted Equal (evaluated on the Go side on the emitted
+  -- functions themselves, values may hold NaN): the arguments are only type-checked here
+  | "containseq", [t, l, x] =>
+    let E ← getTy s t
+    let _ ← getList env E l
+    let _ ← getVal env E x
+    pure (ans "true;" "true")
+  | "uniqueeq", [t, l] | "seteq", [t, l] =>
+    let E ← getTy s t
+    let _ ← getList env E l
+    pure (ans "true;" "true")
+  | "unioneq", [t, a, b] | "intersecteq", [t, a, b] =>
+    let E ← getTy s t
+    let _ ← getList env E a
+    let _ ← getList env E b
+    pure (ans "true;" "true")
   | "filter", [t, l, b] =>
     let E ← getTy s t
     let xs ← getList env E l
